@@ -80,6 +80,12 @@ def _expect(sig, what, got, want):
         raise Violation(sig, "%s is %s, written %s" % (what, short(got, 150), short(want, 150)))
 
 
+PRIOR_TEXT = ("\nprior (0.1-1) unstable; urgency=low\n\n  * prior entry\n\n"
+              " -- A B <a@b.c>  Mon, 01 Jan 2001 00:00:00 +0000\n\n"
+              "prior (0.1-0) unstable; urgency=low\n\n  * older\n\n"
+              " -- A B <a@b.c>  Sun, 31 Dec 2000 00:00:00 +0000\n")
+
+
 def check(case):
     if not (isinstance(case, dict) and case.get("form") in FORMS and G.wellformed(case)):
         return (False, ("invalid-case-skipped",))
@@ -133,6 +139,26 @@ def check(case):
     _expect("attr:author", "Changelog.author", cl.author, G.author_of(w0))
     if cl.date != w0["date"] + w0["dtrail"] and cl.date != w0["date"]:
         raise Violation("attr:date", "Changelog.date is %r" % (cl.date,))
+
+    # The same text parsed into an object that already holds something (an earlier parse of a
+    # different changelog, then scribbled on) must give the same result: what a Changelog holds
+    # after parse_changelog() is a function of the text just parsed.
+    used = Changelog(PRIOR_TEXT, strict=True)
+    used[0].add_change("  * scribble")
+    used.initial_blank_lines.append("")
+    with warnings.catch_warnings(record=True) as caught:
+        warnings.simplefilter("always")
+        try:
+            used.parse_changelog(make_input(case["form"], lines), strict=True)
+        except ChangelogParseError as e:
+            raise Violation("reparse-into-used-object:strict-rejects",
+                            "%s for %s" % (e, short(text)))
+    if caught:
+        raise Violation("reparse-into-used-object:warning", "%s for %s" % (caught[0].message, short(text)))
+    if str(used) != text or len(used) != len(want):
+        raise Violation("reparse-into-used-object:str-differs",
+                        "a Changelog that held another text gives %s after parse_changelog(%s input), text %s"
+                        % (short(str(used)), case["form"], short(text)))
 
     labels = G.struct_labels(case)
     labels.add("form:" + case["form"])
